@@ -161,3 +161,43 @@ if __name__ == "__main__":
         sys.exit(evaluate(sys.argv[2], "--all" in sys.argv, tier))
     elif cmd == "table":
         table()
+
+
+def eval_refactor(rid):
+    """a behaviour-preserving rewrite: every check must stay quiet"""
+    dst = os.path.join(HERE, "seeded", "refactors", rid)
+    if not repo_clean():
+        print("refusing: /repo is not clean")
+        return 2
+    res = {"id": rid, "repo_head": sh("git -C /repo rev-parse --short HEAD")[1].strip(), "alarms": {}}
+    rc, out = sh(f"git -C /repo apply --check {os.path.join(dst, 'patch.diff')}")
+    if rc != 0:
+        res["applies"] = False
+        json.dump(res, open(os.path.join(dst, "result.json"), "w"), indent=1)
+        print(rid, "patch does not apply")
+        return 1
+    res["applies"] = True
+    try:
+        sh(f"git -C /repo apply {os.path.join(dst, 'patch.diff')}")
+        for i in range(1, 21):
+            pid = f"C{i:02d}"
+            r = run_check(pid, "quick")
+            if r["exit"] != 0:
+                # the full obligation list tells which theorem / correspondence broke
+                try:
+                    ev = json.load(open(os.path.join(HERE, "evidence", pid + ".json")))
+                    r["broken"] = [o["name"] + ": " + o.get("detail", "")[:300] for o in ev["coverage"]["obligation_list"] if not o["discharged"]]
+                except Exception:
+                    pass
+                res["alarms"][pid] = r
+    finally:
+        sh("git -C /repo checkout -- .")
+        sh("git -C /repo clean -fdq -- laspy")
+    json.dump(res, open(os.path.join(dst, "result.json"), "w"), indent=1)
+    print(rid, "quiet" if not res["alarms"] else "ALARMS " + ",".join(sorted(res["alarms"])),
+          "|", "; ".join((v.get("what") or (v.get("broken") or [""])[0] or "")[:140] for v in res["alarms"].values()))
+    return 0
+
+
+if __name__ == "__main__" and len(sys.argv) > 1 and sys.argv[1] == "refactor":
+    sys.exit(eval_refactor(sys.argv[2]))
